@@ -63,6 +63,10 @@ func runC09(e *Env) {
 	r.Rule("C09.R5", "paths", "Session.Close cancels unconditionally", 3)
 	r.Rule("C09.R6", "locks", "no Close/shutdown/callback under a server mutex", 1)
 	r.Rule("C09.R7", "flows", "client operations use the caller's context", 6)
+	r.Rule("C09.R8", "paths", "an NSTART slot is never kept by a failed request (later requests would wait for ever, Close included)", 1)
+	if e.want("C09.R8") {
+		nstartReleasedOnError(e, "C09.R8")
+	}
 	if e.want("C09.R1") {
 		c09Waits(e)
 	}
